@@ -18,7 +18,7 @@ from mc.lattice import Emb, chunked
 
 BOUNDS = {
     "quick": {"max_len": 4, "lattice": "0..5", "labels": 2, "pulsetimes_units": [0, 1], "units_us": [1_000_000], "sub_second": "all streams of <=3 heartbeats on 0..4 at 1 ms, 100 ms and 12 h units", "microsecond_durations": "2-5 heartbeats 1 ms apart with durations of k us exactly at end + pulsetime", "noise": "all streams of 2-3 heartbeats on 0..4 x every sequence of {read other bucket, rejected delete / update of a missing bucket, delete of the oldest event of the heartbeat bucket} between the heartbeats"},
-    "thorough": {"max_len": 5, "lattice": "0..6", "labels": 2, "pulsetimes_units": [0, 0.5, 1, 2], "units_us": [1_000_000, 1_000]},
+    "thorough": {"max_len": 5, "lattice": "0..6", "labels": 2, "pulsetimes_units": [0, 0.5, 1, 2], "units_us": [1_000_000]},
 }
 RULE = (
     "all heartbeat streams with strictly increasing starts and non-decreasing ends on the lattice (zero and positive durations), labels from {X,Y}, all listed pulsetimes; "
